@@ -263,6 +263,7 @@ def run(prog, chk):
         else:
             chk.ok("R16.4", "exec:" + owner(b.name), "no callee on a path to exec reaches on_exit", function=owner(b.name))
     exit_in_handler_rule(prog, chk)
+    reentrancy_mark_rule(prog, chk)
 
 
 def exit_in_handler_rule(prog, chk):
@@ -292,3 +293,65 @@ def exit_in_handler_rule(prog, chk):
         chk.fail("R16.5", ON_EXIT, "exit-in-exit-handler-ignored",
                  "on_exit discards the result of the EXIT handler; invoke_trap_handler restores `$?` after it, and the front-ends end with the status saved "
                  "before the handler: `trap 'exit 3' EXIT; true` ends with 0 (bash 3), `trap 'exit 0' EXIT; exit 99` with 99 (bash 0)")
+
+
+CS = "brush_core::callstack::CallStack"
+MARK_MUTATORS = {"insert": CS + "::push_trap_handler", "remove": CS + "::pop", "clear": CS + "::clear_active_trap_signals"}
+MARK_READERS = ("contains", "len", "is_empty", "iter", "clone", "get")
+
+
+def reentrancy_mark_rule(prog, chk):
+    """R16.6: "a handler never re-enters itself" rests on the per-signal in-progress marks (CallStack.active_trap_signals). A mark is set when
+    the handler frame is pushed, removed — that signal only — when *its* frame is popped, and the set as a whole is cleared only for the
+    call stack of a subshell clone. Clearing the set (or removing another signal) when a handler finishes forgets that an outer handler
+    is still running: a nested DEBUG/ERR handler would let the outer ERR handler fire inside itself."""
+    from dataflow import flow_back
+    chk.rule("R16.6", "trap in-progress marks: inserted only by push_trap_handler, removed only by pop (the popped frame's own signal), cleared only "
+                      "through clear_active_trap_signals, which only the subshell clone calls on a cloned stack")
+    n = 0
+    for b in prog.all_bodies({"brush_core"}):
+        fn = owner(b.name)
+        if not fn.startswith("brush_core::callstack::"):
+            continue          # the field is private to the module
+        d = None
+        for bb, t in b.calls():
+            cal = t.best_callee() or t.callee or ""
+            if "HashSet" not in cal or not t.args:
+                continue
+            d = d or defs_of(b)
+            if not any("active_trap_signals" in f.field_path() for f in flow_back(b, d, t.args[0], all_args=False)):
+                continue
+            m = cal.rsplit("::", 1)[-1]
+            n += 1
+            if m in MARK_READERS:
+                continue
+            if MARK_MUTATORS.get(m) == fn:
+                if m == "remove":
+                    # the removed signal is the payload of the frame that was just popped
+                    af = flow_back(b, d, t.args[1], all_args=False)
+                    if any("frame_type" in f.field_path() for f in af):
+                        chk.ok("R16.6", "pop-removes-own-signal", "remove(signal of the popped TrapHandler frame)", function=fn)
+                    else:
+                        chk.fail("R16.6", fn, "pop-removes-foreign-signal", "CallStack::pop removes a signal that is not the popped frame's own")
+                else:
+                    chk.ok("R16.6", "%s@%s" % (m, fn.rsplit("::", 1)[-1]), "reviewed mutator", function=fn)
+            else:
+                chk.fail("R16.6", fn, "in-progress-marks-%s" % m,
+                         "%s applies HashSet::%s to the trap in-progress marks (%s): when a nested handler (DEBUG inside ERR) finishes, the outer handler's mark is lost "
+                         "and the outer trap can fire inside its own handler" % (fn, m, b.loc(t.line)))
+        for bb, i, st in field_stores(b, "callstack::CallStack", "active_trap_signals"):
+            if fn not in (CS + "::new", "<" + CS + " as core::default::Default>::default"):
+                chk.fail("R16.6", fn, "in-progress-marks-replaced", "%s replaces the whole set of trap in-progress marks (%s)" % (fn, b.loc(b.blocks[bb].term.line)))
+    chk.floor("R16.6", "uses of the in-progress marks", n, 4)
+    callers = prog.callers_of(CS + "::clear_active_trap_signals", crates=SHIPPED)
+    chk.floor("R16.6", "callers of clear_active_trap_signals", len(callers), 1)
+    for b, bb, t in callers:
+        fn = owner(b.name)
+        d = defs_of(b)
+        fl = flow_back(b, d, t.args[0], all_args=False)
+        from_clone = any(any(v.endswith("Clone>::clone") or v.endswith("Clone::clone") for v in f.via) for f in fl)
+        if from_clone:
+            chk.ok("R16.6", "cleared-on-a-clone@" + fn.rsplit("::", 1)[-1], "the marks are cleared on a cloned call stack (subshell)", function=fn)
+        else:
+            chk.fail("R16.6", fn, "marks-cleared-on-live-stack", "%s clears the trap in-progress marks of a live call stack (%s): handlers in progress can re-enter themselves"
+                     % (fn, b.loc(t.line)))
